@@ -6,12 +6,21 @@ SPEC = dict(
              "SimbodyProofs/MobilizerLemmas.lean", "SimbodyProofs/C06.lean", "Drivers/C06.lean"],
     n=dict(quick=600, thorough=20000),
     rtol=1e-9, atol=1e-12,
-    rule="random trees (1-5 bodies quick, 1-10 thorough; chain/star/random branching; all 18 built-in types, random frames "
-         "and directions, quaternion mode, gravity) from VERIF_SEED; per tree four variant models are built (Euler-converted "
-         "state, reversed twin, FunctionBased mirrors, rigidly relocated) and compared pairwise; distinct = distinct trees",
-    partial="accelerations (dynamics) are compared between pairs of C++ models only (the Lean model is kinematic); the "
-            "atan2/sqrt based conversions convertRotationToBodyFixedXYZ / convertRotationToQuaternion are C27's; "
-            "MobilizedBody::Custom is exercised through FunctionBased (a Custom::Implementation) only",
+    rule="random trees (1-5 bodies quick, 1-10 thorough; all 18 built-in types, random frames/directions, quaternion mode, "
+         "gravity) with four variant models each (Euler-converted state, reversed twin, FunctionBased mirrors, relocated), plus "
+         "n/3 Euler->quaternion conversions of Ball/Free/Ellipsoid/LineOrientation/FreeLine at arbitrary angles, n/3 FunctionBased "
+         "mirrors of single mobilizers (8 types x both directions), n/3 re-rooted forward/reversed twins (17 types x both "
+         "options) from VERIF_SEED; distinct = distinct records",
+    partial="This property is established mainly by PAIRWISE COMPARISON OF C++ MODELS (P-lines): conversion, reversed twin, "
+            "re-rooted twin, FunctionBased mirror and relocation preserve body poses, velocities and accelerations.  "
+            "(i) proved about executed definitions and tied by O-lines: eulerQuat = what convertToQuaternions returns (up to "
+            "sign) and euler_quat_same_R; Spec.fbX0 = getMobilizerTransform of the FunctionBased mirror and fbX0_eq_X0; body "
+            "poses/velocities of the Euler-converted state vs the model of the quaternion record.  The relocation lemmas and "
+            "reverse_equiv_* are one-step algebraic facts about the executed tree-step functions (X_GB, H_PB_G_col, V_GB, "
+            "reverseSpatialVelocity), not whole-model theorems.  (ii) predicate only: all accelerations/dynamics, reversed and "
+            "re-rooted equivalence, relocation of whole models, velocities of FunctionBased mirrors in trees.  (iii) not "
+            "covered: reaction forces, hand-written MobilizedBody::Custom (only FunctionBased with Linear/Constant functions; "
+            "C04 covers other functions), unnormalised quaternions under conversion",
     assumptions=["libm trusted; angles are trig pairs; the relocation theorems are per tree step (iteration from Ground gives the whole model)",
                  "representable inverses for the reversed twin are found with the library's own setQToFitTransform/setUToFitVelocity (types whose fit is exact, see C05)"],
 )
